@@ -138,7 +138,8 @@ def _totuple(x):
 
 
 def _tostr(x):
-    return str(realise(x))
+    # order-insensitive for mappings: dictionary key order is not part of a value
+    return "str:" + repr(canon(realise(x)))
 
 
 def _always(x):
